@@ -559,6 +559,13 @@ func (bp *boundsProver) lenOf(s ssa.Value, d int) lin {
 	if fw := bp.forwarded(s); fw != nil && d < 20 {
 		return bp.lenOf(fw, d+1)
 	}
+	// a package-level slice or array-backed table that only the package initialiser assigns: one length
+	if u, ok := s.(*ssa.UnOp); ok && u.Op == token.MUL {
+		if g, isG := u.X.(*ssa.Global); isG && globalAssignedOnlyByInit(g) {
+			l.t[lenKey{globalKey{g}}] = 1
+			return l
+		}
+	}
 	if mk, ok := bp.memAtom(s); ok {
 		l.t[lenKey{mk}] = 1
 		return l
@@ -759,6 +766,40 @@ func (bp *boundsProver) condFacts(c ssa.Value, truth bool, d int) []lin {
 	}
 	if u, ok := c.(*ssa.UnOp); ok && u.Op == token.NOT {
 		return bp.condFacts(u.X, !truth, d+1)
+	}
+	// the ok result of a module helper returning (…, ok): on ok the helper's other integer results are within the
+	// bounds the helper itself established before reporting ok (summary proven in the callee)
+	if ex, isEx := c.(*ssa.Extract); isEx && truth {
+		if call, isCall := ex.Tuple.(*ssa.Call); isCall {
+			if g := call.Call.StaticCallee(); g != nil && len(g.Blocks) > 0 && inModule(g) && g != bp.fn {
+				var out []lin
+				for _, sm := range okResultSummary(g, ex.Index) {
+					var rv ssa.Value
+					for _, r := range *call.Referrers() {
+						if e2, ok := r.(*ssa.Extract); ok && e2.Index == sm.res {
+							rv = e2
+						}
+					}
+					if rv == nil || sm.param >= len(call.Call.Args) {
+						continue
+					}
+					r := bp.linOf(rv, 0)
+					switch sm.kind {
+					case "nonneg":
+						out = append(out, r)
+					case "below-param":
+						l := bp.linOf(call.Call.Args[sm.param], 0).add(r, -1)
+						l.c--
+						out = append(out, l)
+					case "below-len":
+						l := bp.lenOf(call.Call.Args[sm.param], 0).add(r, -1)
+						l.c--
+						out = append(out, l)
+					}
+				}
+				return out
+			}
+		}
 	}
 	// a short-circuit value: a || b is false only if both are, a && b is true only if both are. The phi merges
 	// the constant of the deciding operand with the value of the last one; every constant edge comes from a block
@@ -1162,4 +1203,159 @@ func smallResultBound(g *ssa.Function) (int64, bool) {
 		}
 	})
 	return best, ok && n > 0
+}
+
+// okResultSummary: for a helper g whose result okIdx is a boolean, the bounds on its other integer results that
+// hold at every return reporting true: result ≥ 0, result < an integer parameter, result < len(slice parameter) —
+// each proven inside g from the guards that dominate that return.
+type okSummary struct {
+	res   int
+	kind  string
+	param int
+}
+
+var okSummaryMemo = map[*ssa.Function]map[int][]okSummary{}
+
+func okResultSummary(g *ssa.Function, okIdx int) []okSummary {
+	if m, ok := okSummaryMemo[g]; ok {
+		if s, ok := m[okIdx]; ok {
+			return s
+		}
+	} else {
+		okSummaryMemo[g] = map[int][]okSummary{}
+	}
+	okSummaryMemo[g][okIdx] = nil
+	res := g.Signature.Results()
+	if okIdx >= res.Len() || !isBoolT(res.At(okIdx).Type()) {
+		return nil
+	}
+	var trueRets []*ssa.Return
+	bad := false
+	allInstrs(g, func(in ssa.Instruction) {
+		r, isR := in.(*ssa.Return)
+		if !isR {
+			return
+		}
+		rs := retResults(r)
+		if len(rs) != res.Len() {
+			bad = true
+			return
+		}
+		k, isC := rs[okIdx].(*ssa.Const)
+		if !isC || k.Value == nil {
+			bad = true
+			return
+		}
+		if k.Value.String() == "true" {
+			trueRets = append(trueRets, r)
+		}
+	})
+	if bad || len(trueRets) == 0 {
+		return nil
+	}
+	bp := &boundsProver{fn: g}
+	var out []okSummary
+	for ri := 0; ri < res.Len(); ri++ {
+		if ri == okIdx || !isIntegerT(res.At(ri).Type()) {
+			continue
+		}
+		holds := func(goal func(r *ssa.Return) lin) bool {
+			for _, r := range trueRets {
+				if !bp.prove(goal(r), bp.factsAt(r.Block()), 4) {
+					return false
+				}
+			}
+			return true
+		}
+		if holds(func(r *ssa.Return) lin { return bp.linOf(retResults(r)[ri], 0) }) {
+			out = append(out, okSummary{ri, "nonneg", 0})
+		}
+		for pi, p := range g.Params {
+			p := p
+			switch {
+			case isIntegerT(p.Type()):
+				if holds(func(r *ssa.Return) lin {
+					l := bp.linOf(p, 0).add(bp.linOf(retResults(r)[ri], 0), -1)
+					l.c--
+					return l
+				}) {
+					out = append(out, okSummary{ri, "below-param", pi})
+				}
+			default:
+				if _, isSl := p.Type().Underlying().(*types.Slice); isSl {
+					if holds(func(r *ssa.Return) lin {
+						l := bp.lenOf(p, 0).add(bp.linOf(retResults(r)[ri], 0), -1)
+						l.c--
+						return l
+					}) {
+						out = append(out, okSummary{ri, "below-len", pi})
+					}
+				}
+			}
+		}
+	}
+	okSummaryMemo[g][okIdx] = out
+	return out
+}
+
+var globalInitOnlyMemo = map[*ssa.Global]bool{}
+
+// globalAssignedOnlyByInit: the unexported package-level variable g is stored (as a whole) only in its package's
+// initialiser and its address is not taken otherwise (element writes do not change its length).
+func globalAssignedOnlyByInit(g *ssa.Global) bool {
+	if v, ok := globalInitOnlyMemo[g]; ok {
+		return v
+	}
+	globalInitOnlyMemo[g] = false
+	if g.Pkg == nil || token.IsExported(g.Name()) {
+		return false
+	}
+	good := true
+	var visit func(f *ssa.Function)
+	seen := map[*ssa.Function]bool{}
+	visit = func(f *ssa.Function) {
+		if f == nil || seen[f] {
+			return
+		}
+		seen[f] = true
+		isInit := f.Name() == "init" && f.Parent() == nil
+		allInstrs(f, func(in ssa.Instruction) {
+			for _, op := range in.Operands(nil) {
+				if op == nil || *op != ssa.Value(g) {
+					continue
+				}
+				switch x := in.(type) {
+				case *ssa.UnOp:
+					if x.Op != token.MUL {
+						good = false
+					}
+				case *ssa.Store:
+					if x.Addr != ssa.Value(g) || !isInit {
+						good = false
+					}
+				case *ssa.DebugRef:
+				default:
+					good = false
+				}
+			}
+		})
+		for _, a := range f.AnonFuncs {
+			visit(a)
+		}
+	}
+	for _, m := range g.Pkg.Members {
+		switch x := m.(type) {
+		case *ssa.Function:
+			visit(x)
+		case *ssa.Type:
+			for _, t := range []types.Type{x.Type(), types.NewPointer(x.Type())} {
+				ms := g.Pkg.Prog.MethodSets.MethodSet(t)
+				for i := 0; i < ms.Len(); i++ {
+					visit(g.Pkg.Prog.MethodValue(ms.At(i)))
+				}
+			}
+		}
+	}
+	globalInitOnlyMemo[g] = good
+	return good
 }
